@@ -425,6 +425,9 @@ def execute(rundir, argv, cwd, tz, plan_text, timeout=60.0, binary=None, keep_pl
     return res
 
 
+_TIMEOUTS_SEEN = 0
+
+
 class Sandbox:
     """A scratch directory holding one materialised world; several executions may share it."""
 
@@ -453,8 +456,16 @@ class Sandbox:
             config = plan.get("config")  # a configuration file as part of the environment E
         text = compile_plan(plan, self.world, self.root)
         self.nexec += 1
+        global _TIMEOUTS_SEEN
+        if _TIMEOUTS_SEEN >= 2:
+            # this worker has already met (and confirmed) wall-clock timeouts: a tree that spins without system calls must not
+            # cost two full backstop periods per execution for the rest of the run
+            timeout = min(timeout, 10.0)
         res = execute(self.base, argv, os.path.join(self.root, cwd), tz, text, timeout=timeout, config_text=config, nofile=plan.get("nofile"), aslimit=plan.get("aslimit"), stdin_text=stdin_text)
+        if res.sim == "TIMEOUT" and _TIMEOUTS_SEEN >= 2:
+            return res
         if res.sim == "TIMEOUT":
+            _TIMEOUTS_SEEN += 1
             # backstop only: reproduce once before believing it (DESIGN 4.2)
             res2 = execute(self.base, argv, os.path.join(self.root, cwd), tz, text, timeout=timeout, config_text=config, nofile=plan.get("nofile"), aslimit=plan.get("aslimit"), stdin_text=stdin_text)
             if res2.sim != "TIMEOUT":
